@@ -28,6 +28,7 @@ type Ctx struct {
 	unclassified map[string]bool
 	ctorOnly     func(fn *types.Func) bool
 	cbReach      map[*types.Func]string
+	curEngine    *pw.Engine
 }
 
 // Property is a registered check.
@@ -339,6 +340,107 @@ func (c *Ctx) fnNameOf(fd *ast.FuncDecl) string {
 		return pw.FuncName(fn)
 	}
 	return fd.Name.Name
+}
+
+// featurePath: the path exercises API growth — an option or entry point that does not exist in the reference tree (api_gen.go) is
+// in use on it: a field unknown to the reference tree was read and found set (non-nil / non-zero / true), or a call of an exported
+// function unknown to the reference tree returned a set value. The properties quantify over the configuration space of the
+// reference API ("all SkipInterval values", "each option on/off", …); what the library does once a new option is switched on is
+// that option's specification, not theirs. Such paths are not judged (their number is recorded in the evidence); every path on
+// which the additions are left at their zero values is judged as before.
+func (c *Ctx) featurePath(p *pw.Path) bool {
+	for _, ev := range p.Events {
+		var v *pw.Val
+		switch {
+		case ev.Kind == pw.EvFieldRead && ev.Field != nil && ev.Value != nil:
+			owner := fieldOwnerName(ev.Field)
+			if owner == "" || knownFields[owner+"."+fname(ev.Field)] || knownFields[owner+"."+ev.Field.Name()] {
+				continue
+			}
+			if _, ownerKnown := knownOwners()[owner]; !ownerKnown {
+				continue // a new helper type: no statement about it
+			}
+			v = ev.Value
+		case ev.Kind == pw.EvCall && ev.Callee != nil && ev.Callee.Pkg() == c.Pkg.Types && ev.Callee.Exported() && len(ev.Results) > 0:
+			name := strings.TrimPrefix(pw.FuncName(ev.Callee), "cache.")
+			if knownAPI[name] {
+				continue
+			}
+			v = ev.Results[0]
+		default:
+			continue
+		}
+		if isNil, known := p.NilFact(v); known && !isNil {
+			return true
+		}
+		if t, known := p.Truth(v); known && t {
+			return true
+		}
+		if v.Type != nil {
+			if b, ok := v.Type.Underlying().(*types.Basic); ok && b.Info()&(types.IsNumeric) != 0 {
+				if rel := p.Rel(v, c.zeroOf(p)); rel != 0 && rel&pw.REq == 0 {
+					return true
+				}
+			}
+			if b, ok := v.Type.Underlying().(*types.Basic); ok && b.Info()&types.IsString != 0 {
+				if rel := p.Rel(v, c.curEngine.StrConst("")); rel != 0 && rel&pw.REq == 0 {
+					return true
+				}
+			}
+		}
+	}
+	return false
+}
+
+func (c *Ctx) zeroOf(p *pw.Path) *pw.Val { return c.curEngine.IntConst(0) }
+
+var knownOwnersCache map[string]bool
+
+func knownOwners() map[string]bool {
+	if knownOwnersCache == nil {
+		knownOwnersCache = map[string]bool{}
+		for k := range knownFields {
+			knownOwnersCache[k[:strings.Index(k, ".")]] = true
+		}
+	}
+	return knownOwnersCache
+}
+
+// isNewAPI: an exported function or method that the reference tree does not have, and that no function of the reference API calls.
+func (c *Ctx) isNewAPI(fn *types.Func) bool {
+	if fn == nil || !fn.Exported() {
+		return false
+	}
+	name := strings.TrimPrefix(pw.FuncName(fn), "cache.")
+	if knownAPI[name] {
+		return false
+	}
+	// methods on unexported types are reachable through interfaces: only exported receivers / plain functions count
+	if sig, _ := fn.Type().(*types.Signature); sig != nil && sig.Recv() != nil {
+		rn := namedTypeNameRaw(sig.Recv().Type())
+		if rn == "" || !ast.IsExported(rn) {
+			return false
+		}
+	}
+	return true
+}
+
+// dropFeaturePaths filters the paths of an analysed function (see featurePath) and records how many were set aside.
+func (c *Ctx) dropFeaturePaths(name string, paths []*pw.Path) []*pw.Path {
+	var out []*pw.Path
+	n := 0
+	for _, p := range paths {
+		if c.featurePath(p) {
+			n++
+			continue
+		}
+		out = append(out, p)
+	}
+	if n > 0 {
+		c.R.Count("feature_paths_not_judged:"+name, n)
+		c.R.Notes = append(c.R.Notes, fmt.Sprintf("%s: %d paths on which an option/entry point that is not part of the reference API is in use were not judged", name, n))
+	}
+	return out
 }
 
 // declOf returns the declaration of a function of the package.
